@@ -799,7 +799,8 @@ TypeOK == pc \in {"setup", "trim", "commit", "open", "adv", "check", "done"}
 \* behaviours for the harness: one JSON object per terminal state
 EventShape(e) == IF e[1] = 1 THEN (IF Len(e) = 1 THEN "S" ELSE "F") ELSE IF e[1] = 2 THEN "A" ELSE "I"
 ShapeOf(ev) == [i \in DOMAIN ev |-> EventShape(ev[i])]
-ExpClass(c) == Expect(c)
+\* the hiding-bound-of-zero refusal is C17's business only; elsewhere the statement is silent
+ExpClass(c) == IF c = "zero_hid" /\ Mode # "C17" THEN "any" ELSE Expect(c)
 RevOrder == [i \in 1..MaxPolys |-> MaxPolys + 1 - i]
 OpJson(o) == [kind |-> o.kind, labels |-> o.labels, pt |-> o.pt,
               qs |-> SortTuples(o.qs), lcs |-> o.lcs,
@@ -810,6 +811,7 @@ Behaviour ==
    max_degree |-> pp.maxdeg, num_vars |-> pp.nv, wf |-> pp.wf,
    supported |-> keys.sup, hiding |-> keys.hid, bounds |-> keys.bounds, nobounds |-> keys.nobounds,
    polys |-> polys, rng |-> rng,
+   note |-> IF polys # <<>> /\ CommitClass(S, pp.maxdeg, pp.nv, keys, polys, rng) = "zero_hid" THEN "hiding_zero_only" ELSE "",
    ops |-> [k \in DOMAIN ops |-> OpJson(ops[k])],
    adv |-> adv, ser |-> ser,
    model |-> [k \in DOMAIN outs |-> [res |-> outs[k].res, singles |-> outs[k].singles, lock |-> outs[k].lock,
